@@ -20,4 +20,4 @@ for id in "$@"; do
 done
 git -C /repo worktree remove --force $WT
 git -C /repo worktree prune
-rm -rf $ISO
+[ -n "${KEEP_ISO:-}" ] || rm -rf $ISO
